@@ -66,7 +66,10 @@ def expected(events, cfg=None):
                 entries.append(entry)
             stack.append({"kind": k, "idx": i, "entry": entry})
         elif k == "close":
-            stack.pop()
+            b = stack.pop()
+            if has_doc:     # a doccomment on the closing command: "every other command that carries a doccomment"
+                cname = cmakegen.closer_for(b["kind"], events, b["idx"])
+                entries.append({"kind": "generic", "name": cname, "sig": f"{cname}()", "doc": dl, "src": i})
         elif k in ("if", "foreach"):
             if has_doc:
                 args = ev.get("args", ["COND_%d" % i]) if k == "if" else ["it_%d" % i, "a", "b"]
@@ -200,7 +203,10 @@ def compare(exp, obs, check_doc=True):
                     if m["macro"] != om["macro"]:
                         msgs.append(f"member-macro: {where} {m['name']} macro note expected {m['macro']}")
                     tf = [(k, v) for k, v in om["fields"] if k.startswith("type ")]
-                    et = [(f"type {p}", t) for p, t in zip(m["params"], m["types"])]
+                    # a parameter whose type the doccomment states itself is not judged
+                    own = "\n".join(m["doc"])
+                    et = [(f"type {p}", t) for p, t in zip(m["params"], m["types"]) if f":type {p}:" not in own]
+                    tf = [(k, v) for k, v in tf if f":{k}:" not in own]
                     if tf != et:
                         msgs.append(f"member-types: {where} {m['name']} expected {et} observed {tf}")
                     if check_doc and rstobs.strip_blank(m["doc"]) and \
